@@ -1,6 +1,6 @@
 """C14 — The read-only API is pure and history-independent."""
 from __future__ import annotations
-import copy, os, shutil, tempfile
+import copy, itertools, os, shutil, tempfile
 from .util import call
 
 ID = 'C14'
@@ -36,7 +36,7 @@ def constants():
     })
 
 
-def make_ops(rng, case, tmpdir):
+def make_ops(rng, case, tmpdir, fixed=False):
     import kernpy as kp
     from kernpy.core.tokens import TokenCategory as TC
     from kernpy.core.tokenizers import Encoding
@@ -95,11 +95,29 @@ def make_ops(rng, case, tmpdir):
         lambda: ('get_voices', lambda d: [t.encoding for t in d.get_voices()]),
         lambda: ('graph', lambda d: (kp.graph(d, os.path.join(tmpdir, 'g.dot')), open(os.path.join(tmpdir, 'g.dot')).read().count('->'))[1]),
         lambda: ('hash/str of tokens', lambda d: [str(t) for t in d.get_all_tokens()][:50]),
+        lambda: ('iteration left with break', lambda d: [m for m in itertools.islice(iter(d), 1)]),
+        lambda: ('nested iteration', lambda d: [(a, b) for a in itertools.islice(iter(d), 50) for b in itertools.islice(iter(d), 50)]),
+        lambda: ('zip(doc, doc)', lambda d: list(itertools.islice(zip(d, d), 50))),
+        lambda: ('iterator held across another iteration', lambda d: (lambda it: (next(it, None), list(itertools.islice(iter(d), 50)), list(itertools.islice(it, 50))))(iter(d))),
+        lambda: ('graph to a directory that does not exist', lambda d: kp.graph(d, os.path.join(tmpdir, 'missing', 'g.dot'))),
+        lambda: ('graph to a path that is a directory', lambda d: kp.graph(d, tmpdir)),
+        lambda: ('graph text', lambda d: (kp.graph(d, os.path.join(tmpdir, 'g2.dot')), _canon_dot(open(os.path.join(tmpdir, 'g2.dot')).read()))[1]),
     ]
+    if fixed:
+        # one fixed history per document: failing graph exports before successful ones, every form of iteration before next(doc)
+        order = [23, 25, 24, 17, 11, 12, 19, 12, 20, 21, 22, 12, 25]
+        return [pool[k]() for k in order] + [dumps_op()]
     ops = []
     for _ in range(12):
         ops.append(dumps_op() if rng.random() < 0.5 else rng.choice(pool)())
     return ops
+
+
+def _canon_dot(text):
+    """node names are object addresses: numbered by first appearance"""
+    import re
+    seen = {}
+    return re.sub(r'node\d+', lambda m: seen.setdefault(m.group(0), 'n%d' % len(seen)), re.sub(r'#\d+', '#', text))
 
 
 def _short(v):
@@ -125,7 +143,7 @@ def explore(ctx, depth):
             ref = docrun.model_exports(ctx, [case], [[{'cats': docrun.ALLC, 'enc': 'kern'}, {'cats': docrun.ALLC, 'enc': 'ekern'}]])[0]
             refs = list(zip(('kern', 'ekern'), ref.get('spec') or [])) if ref.get('wf') else []
             for h in range(2 if depth == 'quick' else 3):
-                ops = make_ops(rng, case, tmpdir)
+                ops = make_ops(rng, case, tmpdir, fixed=(h == 0))
                 doc = kp.loads(case.text)[0]
                 snap0 = impl.doc_obs(doc, [])
                 const0 = constants()
